@@ -14,7 +14,7 @@ VERIF = os.path.dirname(HERE)
 sys.path.insert(0, VERIF)
 
 # own the hash seed: re-exec once so set/dict iteration inside the library is reproducible
-if os.environ.get('PYTHONHASHSEED') != '0':
+if os.environ.get('PYTHONHASHSEED') != '0' and not os.environ.get('VERIF_KEEP_HASHSEED'):
     os.environ['PYTHONHASHSEED'] = '0'
     os.execv(sys.executable, [sys.executable, '-B', '-W', 'ignore'] + sys.argv)
 
@@ -34,6 +34,7 @@ def main():
     ap.add_argument('--replay')
     ap.add_argument('--workers', type=int, default=None)
     ap.add_argument('--max-cases', type=int, default=None)
+    ap.add_argument('--digests', help='comma separated case indices: print their digests as JSON (determinism cross-check)')
     a = ap.parse_args()
     seed = int(os.environ.get('VERIF_SEED', '0') or 0)
     from mc import engine
@@ -42,6 +43,8 @@ def main():
         return selftest.main()
     if a.replay:
         return engine.replay(a.pid, a.replay)
+    if a.digests:
+        return engine.digests(a.pid, a.tier, seed, [int(x) for x in a.digests.split(',')])
     return engine.run(a.pid, a.tier, seed, workers=a.workers, max_cases=a.max_cases)
 
 
